@@ -508,3 +508,12 @@ func describe(v Value) string {
 	}
 	return fmt.Sprintf("%T", v)
 }
+
+// Exported helpers for companion packages (translation validation).
+func (m *Machine) NewObject(t types.Type, v Value, name string) *Object { return m.newObject(t, v, name) }
+func (m *Machine) ValEq(a, b Value) *Term                                { return m.valEq(a, b) }
+func (m *Machine) Load(p Ptr) Value                                      { return m.load(p) }
+func (m *Machine) NewMap(kt, vt types.Type) *MapV {
+	m.nextMap++
+	return &MapV{ID: m.nextMap, KT: kt, VT: vt}
+}
